@@ -3,3 +3,5 @@ import Hms.Lex.Token
 import Hms.Parse.Pratt
 import Hms.GenBridge
 import Hms.Parse.Normal
+import Hms.Lex.Lexer
+import Hms.Lex.Spec
